@@ -52,3 +52,49 @@ def run_escaping(ctx, prop):
                 break
 
 
+
+
+# what a failing call leaves behind is exactly what it did before the point of failure - no more (nothing read ahead,
+# nothing registered early) and no less (nothing rolled back)
+RESIDUE = [
+    ("def inp = str_input('l1\\nl2\\nl3\\nl4'); def seen = []; 0", "0"),
+    ("process_lines(inp, fn(line) do append(seen, line); if line == 'l2' then error 'P'; line end)", ("error", "'P'")),
+    ("[seen, readln(inp)]", "[['l1', 'l2'], 'l3']"),
+    ("for i in [1, 2, 3] do def made_in_loop = i * 10; if i == 2 then error 'L' end", ("error", "'L'")),
+    ("made_in_loop", "20"),
+    ("def kept = 1; for j in [1] do def also_kept = 2; kept = 5; error 'M' end", ("error", "'M'")),
+    ("[kept, also_kept]", "[5, 2]"),
+    ("def out_ = str_output(); print('a', out_); def w() do print('b', out_); error 'W' end; w()", ("error", "'W'")),
+    ("print('c', out_); get_output_string(out_)", "'abc'"),
+    ("def lst = [1]; def grow() do append(lst, 2); append(lst, 3); nosuch_fn(); append(lst, 4) end; grow()", ("error", "'ERROR'")),
+    ("lst", "[1, 2, 3]"),
+    ("def m = <<<'a' => 1>>>; do m['b'] = 2; m['c'] = 1 / 0; m['d'] = 4 catch 'zz' 0 end", ("error", "'ERROR'")),
+    ("m", "<<<'a' => 1, 'b' => 2>>>"),
+    ("readln(inp)", "'l4'"),
+    ("readln(inp)", "NULL"),
+]
+
+
+def run_residue(ctx, prop):
+    import ckl.functions
+    for legacy, own_env in ((False, False), (True, False), (False, True)):
+        it, out = core.new_interpreter(secure=True, legacy=legacy)
+        pre = "" if legacy else "require IO unqualified; require List unqualified; "
+        env = ckl.functions.Environment() if own_env else None
+        for step, (src, want) in enumerate(RESIDUE):
+            if env is not None:
+                o = observe(lambda: it.interpret(pre + src, "session", env), 600000)
+            else:
+                o = observe(lambda: it.interpret(pre + src, "session"), 600000)
+            ctx.count("residue_calls")
+            ctx.case(("residue", legacy, own_env, step), nontrivial=True)
+            if o.kind == "value":
+                got = core.safe_str(o.value, 300)
+            elif o.kind == "rte":
+                got = ("error", core.safe_str(getattr(o.exc, "value", None), 100))
+            else:
+                got = (o.kind, core.safe_str(o.exc, 100))
+            if got != want:
+                ctx.violation(prop + ":residue-of-failed-call:step-%d" % step, "session step %d (%s%s): %s -> %r, expected %r; earlier steps: %s" % (
+                    step, "legacy" if legacy else "non-legacy", ", host environment" if own_env else "", src, got, want, [x[0][:50] for x in RESIDUE[:step]]), {"src": src})
+                break
